@@ -91,6 +91,7 @@ def main():
     flaky_all = []
     obligations = 0
     discharged = 0
+    known_ob = 0
     functions = []
     samples = []
     trusted = []
@@ -110,7 +111,11 @@ def main():
             fails = [f for f in fails if prop in (f['props'] or [])]
             flaky_all += [f for f in flaky if prop in (f['props'] or [])]
         ob, dis, fl, sm = r.account(prop) if hasattr(r, 'account') else account_verus(r, prop)
-        obligations += ob
+        # obligations listed as known findings are reported separately (coverage.known_finding_obligations) and are
+        # not part of what this run claims to have proved
+        n_known = len({(f['fn'], f['label']) for f in fails if finding_for(kf, prop, f)})
+        known_ob += n_known
+        obligations += ob - n_known
         discharged += max(0, ob - len({(f['fn'], f['label']) for f in fails}) - len(flaky_all))
         functions += fl
         samples += sm
@@ -148,6 +153,7 @@ def main():
             'bounded_items': bounded,
             'not_covered': spec.get('not_covered', []),
             'known_findings_reported': [k['label'] for _, k, _ in known],
+            'known_finding_obligations': known_ob,
             'undecided': undecided + ['unstable obligation (not reproduced on re-run): %s %s' % (f['fn'], f['label']) for f in flaky_all],
             'exhaustive': False,
             'explanation': spec.get('explanation', ''),
